@@ -195,7 +195,7 @@ func (w *World) callersOf(fn *ssa.Function) []ssa.CallInstruction {
 
 func ruleC18R1(w *World, r *Report) {
 	const rule = "C18/R1"
-	r.rule(rule, "outside package initialisers nothing writes through, or lets escape for writing, an address or reference derived from a package-level variable of the core packages", 6)
+	r.rule(rule, "outside package initialisers nothing writes through, or lets escape for writing, an address or reference derived from a package-level variable of the core packages", 3)
 	var globals []*ssa.Global
 	for path, sp := range w.SSAPkg {
 		if !corePkg(path) {
@@ -279,7 +279,7 @@ var importWhitelist = map[string]bool{
 
 func ruleC18R2(w *World, r *Report) {
 	const rule = "C18/R2"
-	r.rule(rule, "the core packages import only pure packages (no os, time, math/rand, sync, unsafe, reflect, runtime, net, io/fs …); no go statement, channel operation, select; no range over a map outside init", 4)
+	r.rule(rule, "the core packages import only pure packages (no os, time, math/rand, sync, unsafe, reflect, runtime, net, io/fs …); no go statement, channel operation, select; no range over a map outside init", 2)
 	for _, p := range []string{modRoot, modRoot + "/ast", modRoot + "/token", modRoot + "/char"} {
 		pkg := w.Pkgs[p]
 		var badImps []string
@@ -495,7 +495,7 @@ func (w *World) trackHolder(v ssa.Value, origin string, seen map[ssa.Value]bool,
 // argument of a formatting function (fmt.*, and the module's own printf-style wrappers), by static type.
 func ruleC18R4(w *World, r *Report) {
 	const rule = "C18/R4"
-	r.rule(rule, "every operand boxed into the ...any argument of a formatting call in the core packages has an address-free static type (basic, named basic, or a type with its own String/Error method; structs/slices/arrays of those): no pointer, map, func, chan or empty interface is formatted into a message or an SQL text (%T operands and messages of provably unreachable panics excepted)", 100)
+	r.rule(rule, "every operand boxed into the ...any argument of a formatting call in the core packages has an address-free static type (basic, named basic, or a type with its own String/Error method; structs/slices/arrays of those): no pointer, map, func, chan or empty interface is formatted into a message or an SQL text (%T operands and messages of provably unreachable panics excepted)", 50)
 	var stringer, errIfc *types.Interface
 	errIfc, _ = types.Universe.Lookup("error").Type().Underlying().(*types.Interface)
 	stringer = types.NewInterfaceType([]*types.Func{types.NewFunc(0, nil, "String", types.NewSignatureType(nil, nil, nil, nil, types.NewTuple(types.NewVar(0, nil, "", types.Typ[types.String])), false))}, nil)
@@ -780,7 +780,7 @@ func ruleC18R5(w *World, r *Report) {
 // input (a source line, a node's SQL) rewrites every '%' in it: '%d' in a quoted line becomes %!d(MISSING).
 func ruleC18R6(w *World, r *Report) {
 	const rule = "C18/R6"
-	r.rule(rule, "every call of a printf-style function in the core packages (fmt.*f, and the module's own wrappers that forward a format and ...any to fmt) passes a constant format string, or forwards its own format parameter unchanged", 100)
+	r.rule(rule, "every call of a printf-style function in the core packages (fmt.*f, and the module's own wrappers that forward a format and ...any to fmt) passes a constant format string, or forwards its own format parameter unchanged", 50)
 	isAnySlice := func(t types.Type) bool {
 		sl, ok := t.Underlying().(*types.Slice)
 		if !ok {
@@ -855,7 +855,7 @@ func ruleC18R6(w *World, r *Report) {
 // race, and a printed tree is no longer equal to a freshly parsed one.
 func ruleC18R7(w *World, r *Report) {
 	const rule = "C18/R7"
-	r.rule(rule, "no SQL(), Pos() or End() method of an ast node type, and no function of package ast reachable from one, stores through an address derived from its parameters (the receiver, its fields, what they point to): the consumers of a tree do not write it", 500)
+	r.rule(rule, "no SQL(), Pos() or End() method of an ast node type, and no function of package ast reachable from one, stores through an address derived from its parameters (the receiver, its fields, what they point to): the consumers of a tree do not write it", 250)
 	astPath := modRoot + "/ast"
 	// reachable set
 	reach := map[*ssa.Function]bool{}
